@@ -54,6 +54,19 @@ class CorrectionStream(Alphabet):
                 ci = flow.const_eval(body, op)
                 if ci is not None:
                     return ("#", ci)
+                # a context held in a variable whose value the interpreter knows on this path
+                try:
+                    ev = M.val(body, getattr(M, "cur_env", {}), op)
+                except Exception:
+                    ev = None
+                if ev and ev is not True and isinstance(ev, tuple) and ev[0] == "i":
+                    pl = op_place(op)
+                    ty = body.local_ty(pl["l"]) if pl is not None else ""
+                    adt = M.F.adts.get(re.sub(r"^&(mut )?", "", ty))
+                    if adt:
+                        for vv in adt["variants"]:
+                            if vv.get("discr") == ev[1]:
+                                return (vv["name"], ev[1])
                 M.unrecognised.append((where, "context argument of %s is not a constant enum variant" % m))
                 return None
             return (v[1], v[2])
